@@ -98,14 +98,15 @@ func runC04(c c04Case) vh.Result {
 		tr  []peer.Event
 	}
 	obsc := make(chan obs, 4)
-	script := &peer.Script{Mechs: []string{"PLAIN"}, OfferTLS: c.Offer != "none", TLSRequired: c.Offer == "required", Cert: c.Cert}
+	script := &peer.Script{Mechs: []string{"PLAIN"}, OfferTLS: c.Offer != "none", TLSRequired: c.Offer == "required", Cert: c.Cert,
+		AfterFault: "<iq type='get' id='c04-probe' from='localhost'><query xmlns='jabber:iq:version'/></iq><message from='a@localhost/r' id='c04-msg' type='chat'><body>still in the clear</body></message>"}
 	switch c.Reply {
 	case "failure", "unexpected", "malformed", "close":
 		script.Dev = map[string]peer.Dev{"starttls": {Kind: c.Reply, Variant: 3}}
 	}
 	prior := &peer.Script{Mechs: []string{"PLAIN"}, OfferTLS: true, Cert: "both"}
 	var addr string
-	opt := clientOpt{Insecure: c.Insecure, ServerName: c.ServerName, Sibling: c.Sibling}
+	opt := clientOpt{Insecure: c.Insecure, ServerName: c.ServerName, Sibling: c.Sibling, Echo: true}
 	if c.Sibling != "" {
 		res.Label("tls-config-shared-with-another-client")
 	}
@@ -147,7 +148,9 @@ func runC04(c c04Case) vh.Result {
 				pc.AfterFault(8 * time.Second)
 				return
 			}
-			// after a fault keep recording what the client still writes for a moment
+			// after a fault keep recording what the client still writes for a moment - also when the server goes on
+			// talking on the unprotected connection: a request, which the router answers by itself (the application has no IQ route), and a message, which the application's
+			// handler answers
 			pc.Drain(300 * time.Millisecond)
 			obsc <- obs{out: o, tr: pc.Transcript()}
 			pc.AfterFault(5 * time.Second)
@@ -209,7 +212,8 @@ func runC04(c c04Case) vh.Result {
 	desc := fmt.Sprintf("%+v", c)
 	// (1)+(2): what arrived where
 	for _, e := range o.tr {
-		if e.Dir != "recv" || e.Kind != "elem" {
+		// ("open": the start tag of whatever the client wrote after it had ended its own stream)
+		if e.Dir != "recv" || (e.Kind != "elem" && e.Kind != "open") {
 			continue
 		}
 		sensitive := (e.Name.Local == "auth" && e.Name.Space == peer.NSSASL) || e.Name.Local == "iq" || e.Name.Local == "message" || e.Name.Local == "presence"
@@ -253,7 +257,7 @@ func runC04(c c04Case) vh.Result {
 
 var c04 = vh.Define(&vh.Def[c04Case]{
 	Property: "C04", Name: "tls",
-	Rule: "client settings {Insecure on/off} x {TLSConfig nil, RootCAs = test CA, InsecureSkipVerify} x {ServerName unset, = domain, = another name} x {alone, or after another Client was built on the same *tls.Config with Insecure on / off (a quarter of the cases with a TLSConfig)} x server STARTTLS {not offered, offered, required} x reply {proceed, failure, unexpected element, malformed, close} x certificate {valid for the domain, wrong host, untrusted issuer, expired, valid only for the other name, valid for both} x {first connection, reconnection after a good TLS connection was lost} over TCP, plus ws:// addresses; real TLS handshakes; oracle on the peer transcript, which tags every received element clear-text / inside-TLS: with Insecure off no <auth/> or stanza in clear text; with verification enabled and a certificate that does not validate for the domain no <auth/> or stanza inside TLS and Connect fails; the legitimate combinations must succeed with <auth/> inside TLS after a fresh stream header (guards against a vacuous fail-closed pass); non-trivial = TLS was attempted or Insecure is off",
+	Rule: "client settings {Insecure on/off} x {TLSConfig nil, RootCAs = test CA, InsecureSkipVerify} x {ServerName unset, = domain, = another name} (after a failed negotiation the server goes on to send an IQ request and a message on the unprotected connection) x {alone, or after another Client was built on the same *tls.Config with Insecure on / off (a quarter of the cases with a TLSConfig)} x server STARTTLS {not offered, offered, required} x reply {proceed, failure, unexpected element, malformed, close} x certificate {valid for the domain, wrong host, untrusted issuer, expired, valid only for the other name, valid for both} x {first connection, reconnection after a good TLS connection was lost} over TCP, plus ws:// addresses; real TLS handshakes; oracle on the peer transcript, which tags every received element clear-text / inside-TLS: with Insecure off no <auth/> or stanza in clear text; with verification enabled and a certificate that does not validate for the domain no <auth/> or stanza inside TLS and Connect fails; the legitimate combinations must succeed with <auth/> inside TLS after a fresh stream header (guards against a vacuous fail-closed pass); non-trivial = TLS was attempted or Insecure is off",
 	Quick: 400, Thorough: 3000, Journal: true,
 	Gen: genC04, Run: runC04,
 })
